@@ -232,7 +232,9 @@ def _only_numeric_base_sum_exponent_differs(t0, t1):
     a, b = split(t0), split(t1)
     if a is None or b is None:
         return False
-    return a[0] == b[0] and (a[1] + b[1]) > 0
+    # equal non-numeric factors: the difference is confined to the numeric content (coefficient and powers of numeric bases), which
+    # the library folds in an order-dependent way (symbolic exponents, complex bases, and rational powers of negative integers alike)
+    return a[0] == b[0]
 
 
 def _same_exponent_sums(t0, t1):
